@@ -461,9 +461,9 @@ class JaxImplicitComponent(ImplicitComponent):
         if self._sparsity is None:
             if self._has_approx:
                 self._sparsity = super().compute_sparsity(direction=direction, num_iters=num_iters,
-                                                          perturb_size=perturb_size)[0]
+                                                          perturb_size=perturb_size)
             else:
-                self._sparsity = _compute_sparsity(self, direction, num_iters, perturb_size)[0]
+                self._sparsity = _compute_sparsity(self, direction, num_iters, perturb_size)
 
         return self._sparsity
 
